@@ -36,6 +36,9 @@ Definition py_mul (self : oexpr) (other : operand) : res oexpr :=
   | OwnRScal => mul_rscal self other
   | OwnOperator => mul_operator self other
   end.
+(* A * B with both operators: the reflected __rmul__ of a proper subclass runs first *)
+Definition py_mul_op (a b : oexpr) : res oexpr :=
+  if reflected_first_mul (ocls b) (ocls a) then py_rmul b (POp a) else py_mul a (POp b).
 (* self @ other,  other @ self *)
 Definition py_matmul : oexpr -> operand -> res oexpr :=
   run {| cb_add := no_cb; cb_mul := py_mul; cb_rmul := no_cb; cb_super := no_cb |} t_Operator_matmul.
@@ -60,7 +63,7 @@ Definition py_radd (self : oexpr) (other : operand) : res oexpr :=         (* ot
   end.
 Definition py_add (self : oexpr) (other : operand) : res oexpr :=
   match other with
-  | POp b => if subclass_radd (ocls b) (ocls self) then py_radd b (POp self)   (* reflected first *)
+  | POp b => if reflected_first_add (ocls b) (ocls self) then py_radd b (POp self)   (* reflected first *)
              else add_direct self other
   | _ => add_direct self other
   end.
@@ -85,7 +88,7 @@ Fixpoint build_tab (s : sexpr T) : res oexpr :=
   | SZero d => Ok (OZero d)
   | SAdd a b => bind (build_tab a) (fun oa => bind (build_tab b) (fun ob => py_add oa (POp ob)))
   | SSub a b => bind (build_tab a) (fun oa => bind (build_tab b) (fun ob => py_sub oa (POp ob)))
-  | SMul a b => bind (build_tab a) (fun oa => bind (build_tab b) (fun ob => py_mul oa (POp ob)))
+  | SMul a b => bind (build_tab a) (fun oa => bind (build_tab b) (fun ob => py_mul_op oa ob))
   | SNeg a => bind (build_tab a) py_neg
   | SPow a n => bind (build_tab a) (fun oa => py_pow oa n)
   | SAddV a v => bind (build_tab a) (fun oa => py_add oa (PVec v))
